@@ -12,7 +12,7 @@ from __future__ import annotations
 from hypothesis import strategies as st
 
 FUNCS = ["f", "g", "np.log", "h"]
-STRS = ["'a+b'", '"x~y|z"', "'it''s'", "'(('", '"]}"', "'`'", "'a:b'", '"%in%"', "' '", "''"]
+STRS = ["'a+b'", '"x~y|z"', "'it''s'", "'(('", '"]}"', "'`'", "'a:b'", '"%in%"', "' '", "''", "'a b'", "'a  b'", '"a\tb"', "'a   b'"]
 NUMS = ["0", "1", "2.5", "10", "1e3", "0x10", "1_000", "3j", ".5"]
 
 
